@@ -144,6 +144,7 @@ def compare_shapes(ctx, rid, ref, cur):
 
 
 def run(ctx):
+    generic.value_slot_naming(ctx)
     R = ctx.report
     S = ctx.schema
     repo = ctx.repo
